@@ -112,6 +112,7 @@ def check(run):
                 'non-trivial = the stop hit a worker holding a lock; distinct by (program, params)')
     extract()
     drv = X.setup(run, THEOREMS + ['Jug.C12.stop_mechanisms_use_known_hooks'])
+    X.loop_correspondence(run, drv)
     rng = core.rng_for(run.seed, 'c12')
     scratch = core.scratch_dir()
     try:
@@ -166,7 +167,7 @@ def replay(path):
         import signal
         from jugverif import procmode
         p = d['replay']['params']
-        obs = procmode.signal_case(p.get('n', 4), p['k'], signal.Signals(p['sig']), p.get('args', []), repeat=p.get('repeat', False), barrier=p.get('barrier', False))
+        obs = procmode.signal_case(p.get('n', 4), p['k'], signal.Signals(p['sig']), p.get('args', []), repeat=p.get('repeat', False), barrier=p.get('barrier', False), broken_stdio=p.get('broken_stdio', False))
         run = core.Run('C12', 'quick')
         procmode.judge_stop(run, obs, p)
         print({k: v for k, v in obs.items() if k not in ('calls', 'calls_before')})
